@@ -38,6 +38,9 @@ THEOREMS = [f"NauyacaVerif.C06.{t}" for t in
             ("chunk_tie", "chunk_pos", "recvSize_tie", "sendall_tie", "writesOf_flatten", "connWrites_flatten", "respond_writes", "sendAll_complete", "flush_preserves", "drain_complete",
              "wrapper_delivers", "wrapper_write_complete", "pump_delivers", "stdlib_delivers", "stdlib_flow_prefix", "stdlib_flow_complete", "stdlib_flow_unpaused", "backends_identical", "sizes_faithful",
              "old_wrapper_truncates")]
+LEAN_TARGETS = LEAN_TARGETS + ["NauyacaVerif.Props.Tr.PumpResponse"]
+TRANSLATED = ["pumpResponse", "resumeWriting", "pauseWriting", "connectionLost"]
+THEOREMS = THEOREMS + [f"NauyacaVerif.Translated.{t}" for t in ("pump_eq", "resume_eq", "pause_eq", "resume_reachable")]
 EXTRACT = ["recvSizes", "wrapperUsesSendall", "defaultMaxFileSize"]
 EXTRACT_EXPECT = {"wrapperUsesSendall": True, "recvSizes": [8192]}
 LEVEL_TEXT = "partial"
